@@ -53,6 +53,26 @@ def page_cycle(rng, size, cpp):
     return ops
 
 
+def page_survivors(rng):
+    """a full page that is no longer the working page is drained down to one or two survivors, which are then resized inside
+    their class, across classes and to the parent, or released - with the page's other chunks, the working page and the
+    retired-page bookkeeping all in play (real chunks-per-page geometry)"""
+    (lo, hi), cpp = rng.choice([((257, 512), 7), ((129, 256), 15), ((65, 128), 31)])
+    size = rng.randint(lo, hi)
+    n = cpp + rng.randint(1, 3)                      # the first page is full, a second one is the working page
+    ops = ["A%d:%d" % (i, size) for i in range(n)]
+    first = list(range(cpp))
+    rng.shuffle(first)
+    keep = first[: rng.choice([1, 1, 2])]
+    ops += ["F%d" % i for i in first if i not in keep] + ["Q"]
+    for s in keep:
+        ops.append(rng.choice(["R%d:%d" % (s, rng.randint(size, hi)), "R%d:%d" % (s, rng.randint(lo, size)), "R%d:%d" % (s, hi),
+                               "R%d:%d" % (s, lo - 1), "R%d:%d" % (s, 513), "R%d:%d" % (s, rng.randint(lo, hi)), "F%d" % s]))
+        ops.append("Q")
+    ops += ["A%d:%d" % (40 + i, rng.randint(lo, hi)) for i in range(rng.randint(0, 3))] + ["Q"]
+    return ops
+
+
 def exact_pages(rng):
     """exactly k full pages of one class (so the last acquire retires the working page), everything released in random
     order, query: exercises the give-back of pages when the class has no working page"""
@@ -175,6 +195,8 @@ def scenario0(rng):
         return handover(rng)
     if r < 0.14:
         return ["SBA %d" % rng.choice([0, 1]), "MAIN " + " ".join(huge_ops(rng))]
+    if r < 0.22:
+        return ["SBA %d" % rng.choice([0, 1]), "MAIN " + " ".join(page_survivors(rng))]
     r = rng.random()
     if r < 0.35:
         return ["SBA %d" % rng.choice([0, 1]), "MAIN " + " ".join(rand_ops(rng, rng.randint(10, 38)))]
